@@ -8,7 +8,7 @@ Nothing is executed: every function below manipulates abstract values only.
 import itertools
 from domains import (
     Lin, band, bor, bxor, bnot, bdeps, bdep, bjoin, bits_const, bits_atom, bits_known,
-    bits_all_deps, bits_dep_all, bits_carry_chain,
+    bits_all_deps, bits_dep_all, bits_carry_chain, bits_same,
 )
 import mir as M
 
@@ -241,7 +241,7 @@ def veq(a, b):
     if a.kind != b.kind:
         return False
     if a.kind == "int":
-        return a.ty == b.ty and a.lo == b.lo and a.hi == b.hi and a.bits == b.bits and a.aff == b.aff and a.exact == b.exact
+        return a.ty == b.ty and a.lo == b.lo and a.hi == b.hi and bits_same(a.bits, b.bits) and a.aff == b.aff and a.exact == b.exact
     if a.kind == "ref":
         return a.loc == b.loc
     if a.kind == "agg":
@@ -268,7 +268,7 @@ def vjoin(a, b, cd, widen=False):
     if a.kind == "int":
         if a.ty != b.ty:
             return TopV("?", a.deps() | b.deps() | cd)
-        if veq(a, b):
+        if a.vid == b.vid and veq(a, b):
             return a
         bits = tuple(bjoin(x, y, cd) for x, y in zip(a.bits, b.bits))
         lo, hi = min(a.lo, b.lo), max(a.hi, b.hi)
@@ -347,6 +347,8 @@ class State:
 
 def get_path(v, path):
     for p in path:
+        if v.kind == "ref" and isinstance(p, int):
+            continue  # projection into the representation of Box/NonNull: same pointer
         if v.kind == "agg":
             v = v.fields[p]
         elif v.kind == "enum":
@@ -447,6 +449,8 @@ class Interp:
         self.notes = []
         self.cfgs = {}
         self.unknown_calls = set()
+        self.div_vids = set()
+        self.cur_line = 0
 
     # -- atoms --------------------------------------------------------------------------------
     def new_atom(self, ty, name, lo=None, hi=None):
@@ -628,7 +632,21 @@ class Interp:
                     return False
         return True
 
+    def open_deps(self, st):
+        """deps of all branch conditions the current point is still control dependent on"""
+        d = set()
+        for pc in st.pc:
+            for (_succ, deps) in pc.values():
+                d |= deps
+        return frozenset(d)
+
     def binop(self, st, op, a, b, dest_ty):
+        r = self._binop(st, op, a, b, dest_ty)
+        if op in ("Div", "Rem") and r.kind == "int":
+            self.div_vids.add(r.vid)
+        return r
+
+    def _binop(self, st, op, a, b, dest_ty):
         if a.kind != "int" or b.kind != "int":
             d = a.deps() | b.deps()
             if op in ("Eq", "Ne", "Lt", "Le", "Gt", "Ge"):
@@ -924,7 +942,13 @@ class Interp:
             if ck == "IntToInt":
                 if a.kind == "enum":
                     return self.enum_discr(a, rv[3])
-                return self.cast_int(a, rv[3])
+                res = self.cast_int(a, rv[3])
+                if a.kind == "int" and M.int_type(rv[3]):
+                    tlo, thi = M.type_range(rv[3])
+                    if a.lo < tlo or a.hi > thi:
+                        self.event("narrow", fn, bi, getattr(self, "cur_line", 0), val=a, ty=rv[3],
+                                   from_div=bool(a.lineage & self.div_vids), open_deps=self.open_deps(st))
+                return res
             if "ReifyFnPointer" in ck or "PointerCoercion" in ck or ck == "Transmute" or "Ptr" in ck:
                 return a
             if M.int_type(rv[3]):
@@ -934,9 +958,8 @@ class Interp:
             info = rv[1]
             ops = [self.operand(st, fi, o) for o in rv[2]]
             if info["k"] == "adt":
-                adt = self.P.adts.get(info["name"])
-                if adt and adt["kind"] == "Enum":
-                    return EnumV(info["name"], info["variant"], ops, len(adt["variants"]))
+                if info.get("enum"):
+                    return EnumV(info["name"], info["variant"], ops, info.get("nvariants"))
                 return AggV(info["name"], ops)
             if info["k"] == "tuple":
                 return AggV("tuple", ops) if ops else UNIT
@@ -1160,6 +1183,7 @@ class Interp:
         for s in bb["stmts"]:
             if s[0] == "assign":
                 place, rv = s[1], s[2]
+                self.cur_line = s[3] if len(s) > 3 else 0
                 try:
                     val = self.rvalue(st, fi, rv, place["ty"], fn, b)
                 except Unsupported as e:
